@@ -170,7 +170,7 @@ theorem updateState_good {s s' : St} {m : UpdMsg} (e : updateState s m = .ok s')
                     have hc4 : ChainAll { s3 with queue := queueAppend s3.queue s3.h m.ra (r.states.length + 1),
                                                    seqH := addSeqHeights s3.seqH m.sender m.bds } := p3.chain.ras_eq rfl
                     obtain ⟨_, s45⟩ := indicateLiveness_fs hg4 (hi4.pre hc4)
-                    refine ⟨hc', hi4.same s45, ?_⟩
+                    refine ⟨hc', hi4.same s45, ?_, s45.p.trans hp3⟩
                     exact (append_evolves hi.nodup hg).trans (s23.evolves.trans
                       ((Evolves.of_ras_eq (s := s3) rfl).trans s45.evolves))
 
